@@ -826,3 +826,6 @@ def run(db, ctx):
     r66(db, ctx)
     r67(db, ctx)
     r68(db, ctx)
+    # fill / ravel hand out `rows * stride` elements of the row storage: a byte count there is a 4x overrun for f32 (seed C06-9)
+    common.shared_rule(db, ctx, C19.storage_rules, 'R6.10', 'flat views of a DenseMatrix span rows()*stride() elements from data.as_ptr(), and the row count always matches the row vector '
+                       '(shared with R19.2 / R19.5)', ['R19.2', 'R19.5'])
